@@ -351,6 +351,29 @@ fn defaults_clause(c: &PuCtx, rec: &mut Rec, which: u8, kind: &str) {
         rec.viol(kind, format!("{:?} accepted={} but with the default spelled out ({:?}) accepted={ok}, same resulting state={same}", c.op, c.out.is_ok(), twin));
     }
 }
+/// Metamorphic clause "a coin sent in two pieces is the coin": a two-asset deposit is re-run on a copy of the pre-state with
+/// its first coin split into two coins of the same denom (the contract aggregates attached coins; a chain's bank module
+/// would not let such a list through, the repository's own test-suite sends them). Outcome class and the whole chain
+/// storage must be identical.
+pub fn oracle_split_coin(c: &PuCtx, rec: &mut Rec) {
+    let PuOp::Provide { u, pool, funds, lock, lock_id, recv, liq_slip, swap_slip } = c.op else { return };
+    if funds.len() < 2 || funds[0].1 < 2 {
+        return;
+    }
+    let mut split = vec![(funds[0].0.clone(), funds[0].1 / 2), (funds[0].0.clone(), funds[0].1 - funds[0].1 / 2)];
+    split.extend(funds[1..].iter().cloned());
+    let twin = PuOp::Provide { u: *u, pool: pool.clone(), funds: split, lock: *lock, lock_id: lock_id.clone(), recv: *recv, liq_slip: *liq_slip, swap_slip: *swap_slip };
+    let cfgw = cfg();
+    let (ok, same) = crate::engine::with_scratch(&cfgw, c.s0, |w2| {
+        let o = apply(w2, &twin);
+        (o.is_ok(), w2.app.storage().data == c.w.app.storage().data)
+    });
+    rec.count("split_coin_twins");
+    rec.validated += 1;
+    if ok != c.out.is_ok() || !same {
+        rec.viol("C02_split_coin_deposit_differs", format!("{:?} accepted={}; with its first coin sent as two coins of the same denom accepted={ok}, same resulting state={same}", c.op, c.out.is_ok()));
+    }
+}
 pub fn oracle_default_slippage(c: &PuCtx, rec: &mut Rec) {
     defaults_clause(c, rec, 0, "C13_omitted_tolerance_is_not_the_default");
 }
